@@ -1,5 +1,125 @@
-(* placeholder until CanonProofs lands *)
-From NinjaV Require Import Base.Bytes Canon.CanonDefs.
+(* C14 — path canonicalisation identifies exactly the lexically equal paths.
+   Model: Canon/CanonDefs.v ([canon], a transliteration of CanonicalizePath, src/util.cc, POSIX
+   branch; [canon_spec], the reference on component lists).  Lexical equivalence: Canon/CanonSpec.v.
+   All statements hold for ALL byte strings (no length bound, no "no NUL" or wf_bytes premise). *)
+From NinjaV Require Import Base.Bytes Canon.CanonDefs Canon.CanonSpec Canon.CanonProofs.
+From Coq Require Import Relations.
 Local Open Scope N_scope.
+
+(* The three-phase, byte-level routine computes the ten-line reference. *)
+Theorem C14_canon_eq_spec : forall s : bytes, canon s = canon_spec s.
+Proof. exact canon_eq_spec. Qed.
+Print Assumptions C14_canon_eq_spec.
+
+(* Two non-empty spellings get the same canonical string exactly when both are absolute or both
+   relative and their component lists are related by the rewrites: drop ".", drop an empty
+   component (repeated/trailing slash), cancel "x/.." for an ordinary x. *)
+Theorem C14_exact : forall s t : bytes, s <> [] -> t <> [] ->
+  (canon s = canon t <->
+   fst (parse_path s) = fst (parse_path t) /\
+   clos_refl_sym_trans (list bytes) rw (snd (parse_path s)) (snd (parse_path t))).
+Proof. exact canon_exact. Qed.
+Print Assumptions C14_exact.
+
+(* The normaliser on component lists decides the generated equivalence. *)
+Theorem C14_nf_complete : forall a b : list bytes,
+  clos_refl_sym_trans (list bytes) rw a b <-> nf a = nf b.
+Proof. exact nf_complete. Qed.
+Print Assumptions C14_nf_complete.
+
+Theorem C14_idempotent : forall s : bytes, canon (canon s) = canon s.
+Proof. exact canon_idempotent. Qed.
+Print Assumptions C14_idempotent.
+
+Theorem C14_never_longer : forall s : bytes, (length (canon s) <= length s)%nat.
+Proof. exact canon_never_longer. Qed.
+Print Assumptions C14_never_longer.
+
+Theorem C14_keeps_root : forall s : bytes, s <> [] ->
+  (hd_error s = Some b_slash <-> hd_error (canon s) = Some b_slash).
+Proof. exact canon_keeps_root. Qed.
+Print Assumptions C14_keeps_root.
+
+(* The result is: the unresolved ".." components, in front, then ordinary components only. *)
+Theorem C14_keeps_leading_dotdot : forall s : bytes, s <> [] ->
+  exists (k : nat) (l : list bytes),
+    nf (snd (parse_path s)) = repeat [b_dot; b_dot] k ++ l /\
+    Forall (fun c => ordinary c = true) l /\
+    canon s = render (fst (parse_path s)) (repeat [b_dot; b_dot] k ++ l).
+Proof. exact canon_keeps_leading_dotdot. Qed.
+Print Assumptions C14_keeps_leading_dotdot.
+
+(* ... and leading ".." components of the input are never resolved or dropped. *)
+Theorem C14_leading_dotdot_kept : forall (k : nat) (a : list bytes),
+  nf (repeat [b_dot; b_dot] k ++ a) = repeat [b_dot; b_dot] k ++ nf a.
+Proof. exact nf_leading_dotdot. Qed.
+Print Assumptions C14_leading_dotdot_kept.
+
+Theorem C14_dot_iff_nothing : forall s : bytes, s <> [] ->
+  (canon s = [b_dot] <-> fst (parse_path s) = false /\ nf (snd (parse_path s)) = []).
+Proof. exact canon_dot_iff_nothing. Qed.
+Print Assumptions C14_dot_iff_nothing.
+
+Theorem C14_empty : canon [] = [].
+Proof. exact canon_empty. Qed.
+Print Assumptions C14_empty.
+
+(* ---------------- non-vacuity / executable examples ---------------- *)
+(* "a/./b/../c//" -> "a/c" *)
 Example C14_sample : canon [97;47;46;47;98;47;46;46;47;99;47;47] = [97;47;99].
+Proof. vm_compute. reflexivity. Qed.
+(* "../../x" unchanged *)
+Example C14_sample_dotdot : canon [46;46;47;46;46;47;120] = [46;46;47;46;46;47;120].
+Proof. vm_compute. reflexivity. Qed.
+(* "/.." unchanged *)
+Example C14_sample_root_dotdot : canon [47;46;46] = [47;46;46].
+Proof. vm_compute. reflexivity. Qed.
+(* "a/.." -> "." *)
+Example C14_sample_dot : canon [97;47;46;46] = [46].
+Proof. vm_compute. reflexivity. Qed.
+
+(* C14_exact, left to right, on real inputs: "a/./b" and "a//b/c/.." are lexically equal ... *)
+Example C14_exact_nonvacuous_equal :
+  lex_equiv [97;47;46;47;98] [97;47;47;98;47;99;47;46;46].
+Proof. apply C14_exact; [discriminate|discriminate|vm_compute; reflexivity]. Qed.
+(* ... the relation is inhabited by the rewrites themselves, not only through [canon] ... *)
+Example C14_rw_nonvacuous :
+  rw (snd (parse_path [97;47;46;47;98])) (snd (parse_path [97;47;98])).
+Proof. apply (rw_dot [[97]] [[98]]). Qed.
+Example C14_rw_dotdot_nonvacuous :
+  rw (snd (parse_path [97;47;120;47;46;46;47;98])) (snd (parse_path [97;47;98])).
+Proof. apply (rw_dotdot [[97]] [120] [[98]]). reflexivity. Qed.
+(* ... and right to left it separates: "a" / "b", and "/a" / "a", are NOT lexically equal. *)
+Example C14_exact_nonvacuous_distinct : ~ lex_equiv [97] [98].
+Proof. intros H. apply C14_exact in H; [vm_compute in H|discriminate|discriminate]. discriminate H. Qed.
+Example C14_exact_nonvacuous_root : ~ lex_equiv [47;97] [97].
+Proof. intros H. apply C14_exact in H; [vm_compute in H|discriminate|discriminate]. discriminate H. Qed.
+(* "/../a" is not "/a": ".." at the root is kept, as the code does. *)
+Example C14_root_dotdot_not_cancelled : ~ lex_equiv [47;46;46;47;97] [47;97].
+Proof. intros H. apply C14_exact in H; [vm_compute in H|discriminate|discriminate]. discriminate H. Qed.
+(* the side condition of C14_exact is needed: "" and "." have the same components up to the
+   rewrites, but the empty string is returned unchanged *)
+Example C14_exact_needs_nonempty : lex_equiv [] [46] /\ canon [] <> canon [46].
+Proof.
+  split.
+  - split; [reflexivity|]. apply rst_trans with (y := @nil bytes).
+    + apply rst_step. apply (rw_empty [] []).
+    + apply rst_sym, rst_step. apply (rw_dot [] []).
+  - vm_compute. discriminate.
+Qed.
+
+(* C14_keeps_root, both directions are exercised *)
+Example C14_keeps_root_nonvacuous :
+  hd_error (canon [47;47;97;47;46;46]) = Some b_slash /\ hd_error (canon [97;47;47]) <> Some b_slash.
+Proof. split; vm_compute; [reflexivity|discriminate]. Qed.
+
+(* C14_dot_iff_nothing: the right-hand side is satisfiable ("a/b/../..") *)
+Example C14_dot_iff_nothing_nonvacuous :
+  fst (parse_path [97;47;98;47;46;46;47;46;46]) = false /\
+  nf (snd (parse_path [97;47;98;47;46;46;47;46;46])) = [].
+Proof. vm_compute. split; reflexivity. Qed.
+
+(* C14_keeps_leading_dotdot on "../a/../../b": two ".." survive, in front *)
+Example C14_keeps_leading_dotdot_sample :
+  canon [46;46;47;97;47;46;46;47;46;46;47;98] = [46;46;47;46;46;47;98].
 Proof. vm_compute. reflexivity. Qed.
